@@ -125,7 +125,19 @@ class ServeHarness:
     def _run(self):
         from hypercorn.utils import wrap_app
 
-        app = wrap_app(self.apps, self.config.wsgi_max_body_size, "asgi")
+        inner = self.apps
+        mw = getattr(self, "middleware", None)
+        if mw == "proxyfix":
+            from hypercorn.middleware import ProxyFixMiddleware
+
+            inner = ProxyFixMiddleware(inner, mode="legacy", trusted_hops=1)
+        elif mw == "http_to_https":
+            # (requests carry X-Forwarded-Proto-less plain http: the redirect middleware answers them itself unless the scheme is https;
+            #  here it sits under ProxyFix-less plain http, so lifespan is what is watched - requests are redirected)
+            from hypercorn.middleware import HTTPToHTTPSRedirectMiddleware
+
+            inner = HTTPToHTTPSRedirectMiddleware(inner, host=None)
+        app = wrap_app(inner, self.config.wsgi_max_body_size, "asgi")
         try:
             if self.backend == "asyncio":
                 import asyncio
